@@ -151,7 +151,76 @@ def forcing(rng, regime, T, zero_pet=False):
         raise ValueError(regime)
     if zero_pet:
         pet = [0.0] * T
+    return degenerate_steps(rng, regime, rain, pet, keep_pet_zero=zero_pet)
+
+
+def degenerate_steps(rng, regime, rain, pet, keep_pet_zero=False):
+    """JOINT degenerate steps, written over a generated forcing with probability 0.6 (each kind independently):
+    rain and PET exactly zero on the same step (single steps and runs of them), PET exactly zero on wet steps,
+    plateaus (one value repeated bit-identically over several steps in one input while the other keeps varying).
+    Data-dependent shortcuts ("nothing changed since the last step") are only reachable through such coincidences,
+    which independent continuous draws never produce.  The 'dry' regime keeps its rain at zero."""
+    T = len(rain)
+    if T == 0 or rng.random() >= 0.6:
+        return rain, pet
+    rain, pet = list(rain), list(pet)
+    if rng.random() < 0.7:                                   # rain = PET = 0 together: single steps and runs
+        for _ in range(rng.randint(1, max(1, T // 12))):
+            t0 = rng.randrange(T)
+            for t in range(t0, min(T, t0 + rng.choice([1, 1, 2, 3, rng.randint(1, 12)]))):
+                rain[t] = 0.0
+                pet[t] = 0.0
+    if rng.random() < 0.5:                                   # PET exactly zero on wet steps
+        for t in range(T):
+            if rain[t] > 0.0 and rng.random() < 0.3:
+                pet[t] = 0.0
+    if rng.random() < 0.5:                                   # plateaus
+        for _ in range(rng.randint(1, 3)):
+            t0 = rng.randrange(T)
+            L = rng.randint(2, 9)
+            which = rng.choice(['rain', 'pet']) if regime != 'dry' else 'pet'
+            if which == 'pet' and keep_pet_zero:
+                continue
+            row = rain if which == 'rain' else pet
+            v = row[t0] if rng.random() < 0.5 else rng.choice([0.0, rng.uniform(0.0, 30.0)])
+            for t in range(t0, min(T, t0 + L)):
+                row[t] = v
     return rain, pet
+
+
+# series lengths around the powers of two and their multiples (block / chunk boundaries), offered besides the ordinary lengths
+BOUNDARY_LENGTHS = (63, 64, 65, 127, 128, 129, 255, 256, 257, 511, 512, 513, 768, 1024)
+
+
+def draw_length(rng, lengths, p_boundary=0.2):
+    return rng.choice(BOUNDARY_LENGTHS) if rng.random() < p_boundary else rng.choice(lengths)
+
+
+def warm_states(rng, model, ps, st0):
+    """An initial state vector inside the store invariant of the theorems but away from the model's own zeros: stores at
+    capacity, above / at / below field capacity, part full (GR4J: the layout n1, n2 of st0 is kept)."""
+    u = lambda cap: rng.choice([cap, cap, rng.uniform(0.5, 1.0) * cap, rng.uniform(0.0, 1.0) * cap, 0.0])
+    if model == 'Surm':
+        smax, fc = ps[6], ps[3] * ps[6]
+        sms = rng.choice([smax, fc, min(smax, fc + rng.uniform(0.0, 1.0) * (smax - fc)), u(smax)])
+        gw = rng.choice([0.0, rng.uniform(0.0, 50.0)])
+        return [sms, gw, sms + gw]
+    if model == 'Simhyd':
+        sms = u(ps[8])
+        gw = rng.choice([0.0, rng.uniform(0.0, 50.0)])
+        return [sms, gw, (sms + gw) * ps[5]]
+    if model == 'Sacramento':
+        uztwc, uzfwc, lztwc, lzfpc, lzfsc = u(ps[3]), u(ps[4]), u(ps[5]), u(ps[7]), u(ps[6])
+        adimc = rng.choice([uztwc, uztwc + ps[5], uztwc + rng.uniform(0.0, 1.0) * ps[5], rng.uniform(0.0, 1.0) * (uztwc + ps[5])])
+        return [uztwc, uzfwc, lztwc, lzfpc, lzfsc, adimc]
+    if model == 'GR4J':
+        st = list(st0)
+        st[0] = u(ps[0])
+        st[1] = rng.choice([0.0, 0.999 * ps[2], rng.uniform(0.0, 1.0) * ps[2]])
+        for k in range(4, len(st)):
+            st[k] = rng.choice([0.0, rng.uniform(0.0, 30.0)])
+        return st
+    return list(st0)
 
 
 # ---------------------------------------------------------------- INIT
